@@ -9,7 +9,7 @@ class C08(C07):
     rule = ("bigBed inputs (disjoint, overlapping, nested, identical and zero-length entries; gaps of every size relative to the "
             "resolution), manual and automatic zoom lists, single and two pass; for every stored level and chromosome the "
             "full-span zoom query plus boundary range queries; records are compared with the model and recomputed "
-            "independently from the per-base coverage depth. Non-trivial = a stored level with two or more records")
+            "independently from the per-base coverage depth; plus zoom queries on bigBeds from the independent encoder of C10 (either byte order). Non-trivial = a stored level with two or more records")
 
     def gen_input(self, r):
         return bbgen.gen_bed_input(r, with_rest=False, lengths=(100, 300, 1000, 5000))
